@@ -200,7 +200,7 @@ class ConcurrentCacher(Cacher[_K, _V]):
                 item = self._cache.get_set(key, getter)
                 self._switch_write_to_read_lock(key)
                 return self._release_read_on_exit(key,item)
-        except Exception as e:
+        except:
             if self._has_read_lock(key): self._release_read_lock(key)
             if self._has_write_lock(key): self._release_write_lock(key)
             raise
